@@ -102,6 +102,23 @@ CHECKS = {
         'gmpy.invert by contract (inverse exists: n prime assumed); '
         'int.from_bytes/to_bytes modelled on lists of byte terms; fake '
         'protobuf messages generated from paranoid.proto'),
+    'C15': (
+        True, '5/C15',
+        'symbolic execution of the real bit-sequence primitives on z3 '
+        'bit-vector proxies (pysym); z3 decides equality with quantifier-free '
+        'bit-level definitions',
+        'Bounded symbolic model checking: Runs / LongestRunOfOnes / '
+        'OverlappingRunsOfOnes / BitCount for every string of 8, 16, 24 (up '
+        'to 64) bits; SplitSequence for every string of 16/23/24 (..40) bits '
+        'and byte-aligned and unaligned block sizes; FrequencyCount / '
+        'SubSequences for every string of 6..9 (12) bits with and without '
+        'wrap-around and the 4-bit-stride fast path on 101..107-bit strings '
+        'with 8 symbolic bits; Scatter up to 6 (8) bits; both matrix-rank '
+        'implementations on every 3x3, 4x3, 3x4 (.. 5x4) binary matrix '
+        'against the subset-XOR counting definition.',
+        'gmpy.popcount as sum of bits; int.to_bytes/from_bytes on lists of '
+        'byte terms; no-overflow side conditions of the chosen widths are '
+        'discharged; ReverseBits/Bits outside'),
 }
 
 NOT_APPLICABLE = {
